@@ -79,7 +79,7 @@ def peer_open_bytes(cfg, spec):
             has65 = False
         field = true_as if true_as <= 65535 else 23456
     params = b''.join(rc.opt_param(2, c) for c in caps)
-    body = rc.open_body(spec['version'], field, spec['hold'], '10.0.0.2', params)
+    body = rc.open_body(spec['version'], field, spec['hold'], spec.get('bgp_id', '10.0.0.2'), params)
     accept = spec['version'] == 4 and true_as == R and spec['hold'] not in (1, 2)
     reasons = set()
     if spec['version'] != 4:
@@ -284,7 +284,8 @@ def open_diff(ref, got):
         return 'fields=' + '+'.join(f)
     ca, cb = [c[0] for c in a['caps']], [c[0] for c in b['caps']]
     if sorted(ca) != sorted(cb):
-        return 'capabilities:missing=%s,extra=%s' % (sorted(set(ca) - set(cb)), sorted(set(cb) - set(ca)))
+        # which side has more, not which capability codes (one root cause, one signature)
+        return 'capabilities:%s' % '+'.join(w for w, d in (('missing', set(ca) - set(cb)), ('extra', set(cb) - set(ca))) if d)
     return 'capability-values'
 
 
@@ -301,6 +302,8 @@ peer_spec = st.fixed_dictionaries({
     'as': st.sampled_from(['match', 'match', 'match', 'other', 'cap-mismatch', 'trans-nocap']),
     'hold': st.one_of(st.sampled_from([0, 1, 2, 3, 4, 30, 90, 180, 65535]), st.integers(3, 65535)),
     'as4': st.booleans(),
+    # the peer may come back with another BGP identifier (router-id changed): acceptance does not depend on it
+    'bgp_id': st.sampled_from(['10.0.0.2', '10.0.0.2', '10.0.0.2', '10.0.0.3', '192.0.2.77', '223.255.255.254']),
     'caps': st.lists(st.sampled_from(['mp4', 'mp6', 'rr', 'rr128', 'err', 'addpath', 'gr']), unique=True, max_size=6),
     'end': st.sampled_from(['close', 'notif', 'notif-ver', 'bad-marker', 'update-early', 'stop-start', 'hold-expiry']),
     'complete': st.booleans()})
